@@ -14,6 +14,7 @@ def pred_alive(nact_flags, nreq, flags):
 
 KF_CLOSE_BATCH = "loop_alive_false_inside_close_cb_batch"
 KF_STALE_RUN = "uv_run_default_stale_result_after_stop_in_initial_timer_pass"
+KF_PENDING = "loop_alive_true_with_only_pending_queue"
 
 
 def monitor(case, line):
@@ -52,6 +53,56 @@ def monitor(case, line):
     return None
 
 
+def all_kinds_monitor(case, line):
+    """The liveness predicate on the observations of the C02 lifecycle harness (all 13 handle kinds,
+    requests in flight): see checks/c02.py liveness_traces for the token format."""
+    if "ABORT" in line:
+        return None
+    toks = line.split()
+    last_u, prev = None, None
+    for tok in toks:
+        if tok[0] == "u" and tok[1:].lstrip("-").isdigit():
+            last_u = tok
+            continue
+        if tok[0] == "z" and tok[1:].lstrip("-").isdigit():
+            if prev is not None:
+                nreq, groups = prev
+                busy = nreq > 0 or any(g[4] == "0" for g in groups)
+                if (tok == "z-16") != busy:
+                    return "uv_loop_close()=%s but busy=%s" % (tok[1:], busy)
+            continue
+        if tok[0] != "o" or ";" not in tok:
+            continue
+        head, rest = tok[1:].split(";", 1)
+        f = head.split(",")
+        if len(f) < 6:
+            continue
+        nact, nreq, alive, pending, batch, clnn = [int(x) for x in f[:6]]
+        groups = [rest[i:i + 5] for i in range(0, len(rest) - len(rest) % 5, 5)]
+        cnt = sum(1 for g in groups if g[1] == "1" and g[2] == "1" and g[3] == "0")
+        if nact != cnt:
+            return "active_handles=%d but %d handles are active, referenced and not closing (%s)" % (nact, cnt, tok)
+        closing_pending = any(g[3] == "1" and g[4] == "0" for g in groups) or clnn == 1
+        want = cnt > 0 or nreq > 0 or closing_pending
+        verdict = None
+        if bool(alive) != want:
+            if not alive and batch:
+                verdict = "KNOWN:" + KF_CLOSE_BATCH
+            elif alive and pending:
+                verdict = "KNOWN:" + KF_PENDING
+            else:
+                return "uv_loop_alive()=%d but the outstanding-work predicate is %s at %s" % (alive, want, tok)
+        if last_u is not None:
+            r = last_u != "u0"
+            if r != bool(alive):
+                return "uv_run() returned %s but uv_loop_alive() right after it is %d (%s)" % (last_u[1:], alive, tok)
+            last_u = None
+        prev = (nreq, groups)
+        if verdict:
+            return verdict
+    return None
+
+
 def main():
     chk = vf.Check("C01")
     chk.prove()
@@ -67,6 +118,36 @@ def main():
     a, b = lc.run_both(h, m, cases)
     vf.diff_cases(chk, "loop core = Model/LoopCore.v", cases, a, b, monitor)
     chk.sample({"case": cases[len(corpus)], "impl": a[len(corpus)] if len(a) > len(corpus) else None})
+    # all handle kinds: the liveness predicate on the C02 lifecycle harness's observations (monitor only)
+    try:
+        sys.path.insert(0, os.path.dirname(os.path.abspath(__file__)))
+        import c02
+        pairs = c02.liveness_traces(chk, lib, chk.tier == "thorough", n=None if chk.tier == "thorough" else 800)
+        nobs, nb = 0, 0
+        reported = 0
+        for sc, tr in pairs:
+            nobs += tr.count(" o") + tr.startswith("o")
+            chk.count("all-kinds liveness", sc + "=>" + tr)
+            v = all_kinds_monitor(sc, tr)
+            if v and v.startswith("KNOWN:"):
+                f = chk.match_known(v[6:])
+                if f is not None:
+                    chk.known_hit(f)
+                    v = None
+                else:
+                    v = "unlisted finding " + v[6:]
+            if v:
+                nb += 1
+                if reported < 3:
+                    reported += 1
+                    chk.violation("liveness predicate over all handle kinds: " + v,
+                                  {"kind": "monitor", "obligation": "all-kinds liveness", "case": sc, "impl": tr},
+                                  found_input=True)
+        chk.cov["all_kinds_liveness"] = {"scripts": len(pairs), "observations": nobs, "violating_scripts": nb}
+        chk.corr("liveness predicate on all 13 handle kinds (monitor only, harness/c02_life.c)", len(pairs))
+    except vf.BuildError as e:
+        chk.violation("lifecycle harness does not build: %s" % str(e)[:200], {"kind": "build", "log": str(e)},
+                      found_input=False)
     chk.cov["callbacks_observed"] = sum(l.count(" c") for l in a)
     chk.cov["uv_run_calls"] = sum(l.count(" u") for l in a)
     chk.finish(
